@@ -22,6 +22,12 @@ theorem ring_add_c0_pin (size : BitVec 64) :
 theorem ring_add_c1_pin (r_tail_CompareAndSwap_tail_tail_1 : Bool) :
     Gen.LossySites.ring_add_c1 r_tail_CompareAndSwap_tail_tail_1 = r_tail_CompareAndSwap_tail_tail_1 := by pin_tac Gen.LossySites.ring_add_c1
 
+theorem ring_add_x0_pin (tail : BitVec 64) :
+    Gen.LossySites.ring_add_x0 tail = (tail + (1#64)) := by pin_tac Gen.LossySites.ring_add_x0
+
+theorem ring_add_x1_pin (tail : BitVec 64) :
+    Gen.LossySites.ring_add_x1 tail = (tail &&& (15#64)) := by pin_tac Gen.LossySites.ring_add_x1
+
 theorem ring_add_a0_pin (r_head_Load : BitVec 64) :
     Gen.LossySites.ring_add_a0 r_head_Load = r_head_Load := by pin_tac Gen.LossySites.ring_add_a0
 
@@ -75,6 +81,9 @@ theorem Striped_Add_c2_pin (buffer__nil : Bool) :
 
 theorem Striped_Add_c3_pin (result : BitVec 8) :
     Gen.LossySites.Striped_Add_c3 result = (result == (255#8)) := by pin_tac Gen.LossySites.Striped_Add_c3
+
+theorem Striped_Add_x0_pin (bs_len : BitVec 64) (t_idx : BitVec 32) :
+    Gen.LossySites.Striped_Add_x0 bs_len t_idx = (t_idx &&& (BitVec.setWidth 32 (bs_len - (1#64)))) := by pin_tac Gen.LossySites.Striped_Add_x0
 
 theorem Striped_Add_a3_pin (buffer_add_n : BitVec 8) :
     Gen.LossySites.Striped_Add_a3 buffer_add_n = buffer_add_n := by pin_tac Gen.LossySites.Striped_Add_a3
@@ -141,6 +150,9 @@ theorem Striped_expandOrRetry_c15_pin (s_striped_Load____bs : Bool) :
 
 theorem Striped_expandOrRetry_c16_pin (init : Bool) :
     Gen.LossySites.Striped_expandOrRetry_c16 init = init := by pin_tac Gen.LossySites.Striped_expandOrRetry_c16
+
+theorem Striped_expandOrRetry_x0_pin (bs_len : BitVec 64) (t_idx : BitVec 32) :
+    Gen.LossySites.Striped_expandOrRetry_x0 bs_len t_idx = (t_idx &&& (BitVec.setWidth 32 (bs_len - (1#64)))) := by pin_tac Gen.LossySites.Striped_expandOrRetry_x0
 
 theorem Striped_expandOrRetry_a0_pin :
     Gen.LossySites.Striped_expandOrRetry_a0  = (255#8) := by pin_tac Gen.LossySites.Striped_expandOrRetry_a0
@@ -252,6 +264,8 @@ theorem Striped_Len_r1_pin (result : BitVec 64) :
 
 theorem siteParams_pin : Gen.LossySites.siteParams = [("ring_add_c0", ["size"]),
   ("ring_add_c1", ["r_tail_CompareAndSwap_tail_tail_1"]),
+  ("ring_add_x0", ["tail"]),
+  ("ring_add_x1", ["tail"]),
   ("ring_add_a0", ["r_head_Load"]),
   ("ring_add_a1", ["r_tail_Load"]),
   ("ring_add_a2", ["head", "tail"]),
@@ -270,6 +284,7 @@ theorem siteParams_pin : Gen.LossySites.siteParams = [("ring_add_c0", ["size"]),
   ("Striped_Add_c1", ["bs__nil"]),
   ("Striped_Add_c2", ["buffer__nil"]),
   ("Striped_Add_c3", ["result"]),
+  ("Striped_Add_x0", ["bs_len", "t_idx"]),
   ("Striped_Add_a3", ["buffer_add_n"]),
   ("Striped_Add_r0", ["s_expandOrRetry_n_t_true"]),
   ("Striped_Add_r1", ["s_expandOrRetry_n_t_true"]),
@@ -292,6 +307,7 @@ theorem siteParams_pin : Gen.LossySites.siteParams = [("ring_add_c0", ["size"]),
   ("Striped_expandOrRetry_c14", ["s_busy_CompareAndSwap_0_1", "s_busy_Load", "s_striped_Load____bs"]),
   ("Striped_expandOrRetry_c15", ["s_striped_Load____bs"]),
   ("Striped_expandOrRetry_c16", ["init"]),
+  ("Striped_expandOrRetry_x0", ["bs_len", "t_idx"]),
   ("Striped_expandOrRetry_a0", []),
   ("Striped_expandOrRetry_a1", []),
   ("Striped_expandOrRetry_a2", []),
@@ -329,14 +345,14 @@ theorem siteParams_pin : Gen.LossySites.siteParams = [("ring_add_c0", ["size"]),
   ("Striped_Len_r0", ["result"]),
   ("Striped_Len_r1", ["result"])] := by rfl
 
-theorem shape_pin : Gen.LossySites.shape = [("newRing", [0, 0, 2, 1, 0]),
-  ("ring_add", [2, 0, 3, 3, 0]),
-  ("ring_drainTo", [3, 1, 6, 0, 0]),
-  ("ring_len", [0, 0, 0, 1, 0]),
-  ("NewStriped", [0, 0, 0, 1, 0]),
-  ("Striped_Add", [4, 0, 4, 4, 1]),
-  ("Striped_expandOrRetry", [17, 2, 24, 1, 0]),
-  ("Striped_DrainTo", [3, 1, 3, 0, 0]),
-  ("Striped_Len", [3, 2, 4, 2, 0])] := by rfl
+theorem shape_pin : Gen.LossySites.shape = [("newRing", [0, 0, 2, 1, 0, 0]),
+  ("ring_add", [2, 0, 3, 3, 0, 2]),
+  ("ring_drainTo", [3, 1, 6, 0, 0, 0]),
+  ("ring_len", [0, 0, 0, 1, 0, 0]),
+  ("NewStriped", [0, 0, 0, 1, 0, 0]),
+  ("Striped_Add", [4, 0, 4, 4, 1, 1]),
+  ("Striped_expandOrRetry", [17, 2, 24, 1, 0, 1]),
+  ("Striped_DrainTo", [3, 1, 3, 0, 0, 0]),
+  ("Striped_Len", [3, 2, 4, 2, 0, 0])] := by rfl
 
 end OtterVerif.Pin.LossySites
